@@ -36,7 +36,7 @@ def _split(rng, flat):
 
 
 def gen(rng, tier):
-    n = 500 if tier == 'quick' else 10000
+    n = G.budget(500) if tier == 'quick' else 10000
     for it in range(n):
         k1, k2 = rng.randint(2, 12), rng.randint(2, 12)
         l1, a1 = G.alphabet(rng, k=k1)
